@@ -82,9 +82,32 @@ class PToken:
 
     def __init__(self, name="p"):
         self.name = name
+        self.kind = None            # set by the unit: the ModInt kind whose modulus this token is
 
     def __repr__(self):
         return f"<prime {self.name}>"
+
+    # arithmetic with the modulus itself: p is 0 in Z/p; the integer result is neither reduced nor zero-faithful
+    def _z(self):
+        if self.kind is None:
+            raise Unsupported("arithmetic on the field modulus outside a ModInt context")
+        return Fld(R(0), self.kind, reduced=False, zf=False)
+
+    def __add__(self, o):
+        return self._z() + o
+
+    __radd__ = __add__
+
+    def __sub__(self, o):
+        return self._z() - o
+
+    def __rsub__(self, o):
+        return o - self._z() if isinstance(o, Fld) else self._z()._co(o) - self._z()
+
+    def __mul__(self, o):
+        return self._z() * o
+
+    __rmul__ = __mul__
 
 
 def in_range(v, modulus):
